@@ -163,16 +163,15 @@ impl FrameReader for QuicFrameReader {
 struct QuicFrameWriter {
     conn: Connection,
     session_id: u32,
-    frame_id: u16,
 }
+
+// Fragments are reassembled per connection and are keyed by this id only, so the ids of
+// all sessions that share a connection must come from one counter.
+static NEXT_FRAME_ID: std::sync::atomic::AtomicU16 = std::sync::atomic::AtomicU16::new(0);
 
 impl QuicFrameWriter {
     fn new(conn: Connection, session_id: u32) -> Box<Self> {
-        Box::new(Self {
-            conn,
-            session_id,
-            frame_id: 0,
-        })
+        Box::new(Self { conn, session_id })
     }
 }
 
@@ -193,7 +192,8 @@ impl FrameWriter for QuicFrameWriter {
                 "Datagram not allowed for this connection",
             ));
         }
-        let fragments = Fragments::make_fragments(mtu.unwrap(), &mut self.frame_id, frame);
+        let mut frame_id = NEXT_FRAME_ID.fetch_add(1, std::sync::atomic::Ordering::Relaxed);
+        let fragments = Fragments::make_fragments(mtu.unwrap(), &mut frame_id, frame);
         let mut len = 0;
         for fragment in fragments {
             len += fragment.len();
